@@ -150,7 +150,7 @@ func (b *BufferedBus[T]) CanGet() bool {
 }
 
 func (b *BufferedBus[T]) CanAdd() bool {
-	return len(b.buffer) != b.bufferLength
+	return len(b.buffer) < b.bufferLength
 }
 
 func (b *BufferedBus[T]) RemainingToAdd() int {
